@@ -5,6 +5,7 @@ import (
 	"github.com/evolbioinfo/goalign/io"
 	"github.com/evolbioinfo/goalign/io/utils"
 	"github.com/spf13/cobra"
+	"sort"
 )
 
 var trimMapout string
@@ -111,10 +112,17 @@ func writeNameMap(namemap map[string]string, outfile string) (err error) {
 		return
 	}
 
-	for long, short := range namemap {
+	// In the order of the names, not in the order of the map, which
+	// changes from one execution to the other
+	longs := make([]string, 0, len(namemap))
+	for long := range namemap {
+		longs = append(longs, long)
+	}
+	sort.Strings(longs)
+	for _, long := range longs {
 		f.WriteString(long)
 		f.WriteString("\t")
-		f.WriteString(short)
+		f.WriteString(namemap[long])
 		f.WriteString("\n")
 	}
 	utils.CloseWriteFile(f, outfile)
